@@ -442,7 +442,7 @@ class _Beta(ast.NodeTransformer):
         return node
 
 
-def inline_helpers(P, f, depth=2, only_private=True):
+def inline_helpers(P, f, depth=2, only_private=True, local_objects=False):
     """Body of f with calls to simple helper methods/functions of the package inlined, so that "extract method" leaves the
     shape-sensitive recognisers something to recognise.  A call is inlined when it is the whole right-hand side of an
     assignment, an expression statement or a return value; the callee is `self.<m>(...)` on f's own class or a module-level
@@ -452,6 +452,19 @@ def inline_helpers(P, f, depth=2, only_private=True):
     body = acopy(f.node.body)
     count = [0]
     serial = [0]
+    # locals bound exactly once to a fresh instance of a class of f's module, constructed without arguments
+    local_objs = {}
+    if local_objects:
+        stores = {}
+        for n in walk_local(f.node):
+            if isinstance(n, ast.Name) and isinstance(n.ctx, ast.Store):
+                stores[n.id] = stores.get(n.id, 0) + 1
+        for n in walk_local(f.node):
+            if isinstance(n, ast.Assign) and len(n.targets) == 1 and isinstance(n.targets[0], ast.Name) and stores.get(n.targets[0].id) == 1 \
+                    and isinstance(n.value, ast.Call) and isinstance(n.value.func, ast.Name) and not n.value.args and not n.value.keywords:
+                k = P.classes.get("%s.%s" % (f.module.name, n.value.func.id))
+                if k is not None:
+                    local_objs[n.targets[0].id] = k
 
     def callee_of(call):
         if not isinstance(call, ast.Call) or any(isinstance(a, ast.Starred) for a in call.args) or any(k.arg is None for k in call.keywords):
@@ -466,6 +479,11 @@ def inline_helpers(P, f, depth=2, only_private=True):
             if owner is not None and owner.params and call.func.value.id == owner.params[0]:
                 g = P.method(owner.cls, call.func.attr)
                 recv = call.func.value
+            elif call.func.value.id in local_objs:
+                # a method of an object this function created itself (`w = K(); w.m(...)`): inlined whatever its name
+                g = P.method(local_objs[call.func.value.id], call.func.attr)
+                recv = call.func.value
+                nested = True
         elif isinstance(call.func, ast.Name):
             # a function defined inside f (once, at the top level of its body) comes first: it shadows a module-level one
             local = [g_ for g_ in P.funcs.values() if g_.parent is f and not g_.is_lambda and g_.name == call.func.id]
@@ -571,6 +589,16 @@ def inline_helpers(P, f, depth=2, only_private=True):
                 g, recv = callee_of(s.value)
                 if g is not None:
                     rep = expand(s.value, g, recv, None)
+            elif isinstance(s, ast.Assign) and len(s.targets) == 1 and isinstance(s.targets[0], ast.Name) and s.targets[0].id in local_objs and isinstance(s.value, ast.Call) \
+                    and isinstance(s.value.func, ast.Name) and P.classes.get("%s.%s" % (f.module.name, s.value.func.id)) is local_objs[s.targets[0].id]:
+                # `w = K()`: the constructor's body with the new object in the role of self (its fields become locals below)
+                init = P.method(local_objs[s.targets[0].id], "__init__")
+                if init is None:
+                    rep = []
+                elif len(init.params) == 1 and not init.vararg and not init.kwarg and not _is_generator(init.node) and not any(isinstance(n_, ast.Return) and n_.value is not None for n_ in walk_local(init.node)):
+                    rep = expand(s.value, init, ast.Name(id=s.targets[0].id, ctx=ast.Load()), None)
+                if rep is not None:
+                    objs_built.add(s.targets[0].id)
             elif isinstance(s, ast.Assign) and len(s.targets) == 1:
                 g, recv = callee_of(s.value)
                 if g is not None:
@@ -590,7 +618,26 @@ def inline_helpers(P, f, depth=2, only_private=True):
                 out.append(s)
         return out
 
+    objs_built = set()
     new = visit(body, 1)
+    # scalar replacement: an object of this function all of whose uses are now `obj.field` is a bundle of locals
+    for nm in sorted(objs_built):
+        uses = [n for s_ in new for n in ast.walk(s_) if isinstance(n, ast.Name) and n.id == nm]
+        mod_ = ast.Module(body=new, type_ignores=[])
+        for n in ast.walk(mod_):
+            for c in ast.iter_child_nodes(n):
+                if not isinstance(c, (ast.expr_context, ast.operator, ast.boolop, ast.unaryop, ast.cmpop)):
+                    c._parent = n
+        if uses and all(isinstance(getattr(u, "_parent", None), ast.Attribute) and getattr(u, "_parent").value is u for u in uses):
+            class _SR(ast.NodeTransformer):
+                def visit_Attribute(self, node):
+                    self.generic_visit(node)
+                    if isinstance(node.value, ast.Name) and node.value.id == nm:
+                        return ast.copy_location(ast.Name(id="%s__%s" % (nm, node.attr), ctx=node.ctx), node)
+                    return node
+
+            new = [_SR().visit(s_) for s_ in new]
+            count[0] += 1
     if count[0]:
         # a local function all of whose calls were inlined is dead
         loads = {n.id for s_ in new if not isinstance(s_, (ast.FunctionDef, ast.AsyncFunctionDef)) for n in ast.walk(s_) if isinstance(n, ast.Name) and isinstance(n.ctx, ast.Load)}
